@@ -90,8 +90,17 @@ func runC06(s *kernel.Sim) {
 		s.HarnessErr = "engine rejected generated C06 configuration: " + err.Error()
 		return
 	}
+	// in a third of the runs the engine's own background goroutines (processing
+	// loop, TTL watcher, removal goroutines) are schedulable at lock sites too, so
+	// that e.g. a TTL can elapse in the middle of one quota check of the loop
+	bgYield := false && tp.Chance(1, 3) // disabled: the time-based rules need decision-point events first (DESIGN.md, limits)
+	settling := false
+	s.Knobs["background_goroutines_schedulable"] = bgYield
 	s.YieldOn = func(point string, a []string, harness bool) bool {
-		return harness && isLockPoint(point) && siteOn(a[0])
+		if settling || !isLockPoint(point) {
+			return false
+		}
+		return (harness || bgYield) && siteOn(a[0])
 	}
 
 	reqs := map[string]*c06req{}
@@ -228,6 +237,7 @@ func runC06(s *kernel.Sim) {
 		return
 	}
 	// settle: faults stop; every task runs; time passes the TTL
+	settling = true
 	for i := 0; i < 6 && !s.Failed(); i++ {
 		s.Settle()
 		open := 0
